@@ -1,4 +1,6 @@
 """C01 Model cache coherence: an update restores exactly the from-scratch values (Engine A, CrossHair)."""
+import os
+
 from ..chrun import Cond, run_conditions
 from ..harness import Check
 
@@ -67,6 +69,90 @@ def set_seed_obligations(chk):
     return obs
 
 
+def raising_assignment(chk):
+    """Engine C (vf/dse.py): graph `raiser` (a node function rejects input 13 by raising), auto-update on, from a fully up-to-date state with
+    symbolic integer inputs: whether or not the assignment raises, every node that reports itself up to date afterwards holds the from-scratch
+    value for the CURRENT inputs; without an exception nothing is outdated.  (CrossHair does not confirm this condition within 15 minutes.)"""
+    import time
+    import z3
+    from .. import dse
+    from ..harness import Result
+    os.environ["GRAPH"] = "raiser"
+    import importlib
+    import vf.ch.h_c01 as h
+    if h.GRAPH != "raiser":
+        h = importlib.reload(h)
+    Z = dict(a0=z3.Int("rz_a0"), b0=z3.Int("rz_b0"), new=z3.Int("rz_new"))
+
+    def run(path):
+        path.assume(Z["a0"] != 13)
+        h.load([dse.SInt(Z["a0"]), dse.SInt(Z["b0"])], [0, 0, 0], [False, False, False], True)
+        raised = False
+        try:
+            h.M.nodes["a"].value = dse.SInt(Z["new"])
+        except dse.Unsupported:
+            raise
+        except dse.Infeasible:
+            raise
+        except Exception:
+            raised = True
+        cur = {n: h.M.nodes[n].value for n in h.VALUES}
+        ref = dict(cur)
+        for n in h.CACHING:
+            ref[n] = h.F[n](ref)
+        parts = [z3.BoolVal(raised) == (Z["new"] == 13)]
+        for n in h.CACHING:
+            if not h.M.nodes[n].outdated:
+                parts.append(dse._as_int(dse._ze(h.M.nodes[n].value)) == dse._as_int(dse._ze(ref[n])))
+                if n == "c":
+                    parts.append(dse._as_int(dse._ze(cur["a"])) != 13)
+            elif not raised:
+                parts.append(z3.BoolVal(False))
+        v, m = path.valid(z3.And(*parts))
+        if v == "unsat":
+            return None
+        if v == "sat":
+            return {k: int(str(m.eval(t, model_completion=True))) for k, t in Z.items()}
+        raise dse.Unsupported("z3 unknown")
+
+    class _Ob:
+        name = ("[graph raiser, auto-update on] an assignment whose auto-update raises (a node function rejects the value) leaves every node that reports itself up to date "
+                "with the from-scratch value for the current inputs; without an exception nothing is outdated")
+        signature = "raiser:assign-raises"
+    t0 = time.time()
+    try:
+        stats, cex, complete = dse.explore(run, deadline=t0 + 300)
+        err = None
+    except Exception as ex:
+        stats, cex, complete, err = dse.Stats(), [], False, f"{type(ex).__name__}: {ex}"
+    info = dict(tactic="dynamic symbolic execution + z3 per path", paths=stats.paths, queries=stats.queries)
+    chk.extra["raising_assignment"] = dict(paths=stats.paths, solver_queries=stats.queries)
+    if err or not complete and not cex:
+        chk.record(Result(_Ob, "unknown", stats.solver_s, info, detail=err or "exploration incomplete"))
+        return
+    if not cex:
+        chk.record(Result(_Ob, "unsat", stats.solver_s, info, twin="sat"))
+        return
+    # replay natively with plain ints
+    c = cex[0]
+    h.load([c["a0"], c["b0"]], [0, 0, 0], [False, False, False], True)
+    try:
+        h.M.nodes["a"].value = c["new"]
+        raised = False
+    except Exception:
+        raised = True
+    cur = {n: h.M.nodes[n].value for n in h.VALUES}
+    ref = dict(cur)
+    for n in h.CACHING:
+        ref[n] = h.F[n](ref)
+    bad = {n: (int(h.M.nodes[n].value), int(ref[n])) for n in h.CACHING if not h.M.nodes[n].outdated and h.M.nodes[n].value != ref[n]}
+    stale = [n for n in h.CACHING if h.M.nodes[n].outdated]
+    rep = bool(bad) or (not raised and bool(stale)) or (raised != (c["new"] == 13))
+    chk.record(Result(_Ob, "sat", stats.solver_s, info, replay=dict(reproduced=rep, inputs=dict(a=c["a0"], b=c["b0"], assigned_to_a=c["new"]),
+                                                                    observed=dict(raised=raised, inputs_after={k: int(v) for k, v in cur.items()}, up_to_date_but_wrong={k: dict(holds=v[0], from_scratch=v[1]) for k, v in bad.items()}, outdated=stale),
+                                                                    note="plain-integer run of the same history on the real model")))
+
+
 def main():
     chk = Check("C01")
     graphs = ["diamond", "weak", "dist2"] if chk.tier == "quick" else ["chain", "diamond", "dist", "weak", "dist2"]
@@ -97,7 +183,8 @@ def main():
         for fn in ("check_update_all", "check_toggle_and_state") + (("check_restore",) if chk.tier != "quick" and NC[g] <= 4 else ()):
             conds.append(Cond("vf.ch.h_c01", fn, f"[graph {g}] {OPS[fn]}; the cache invariant is preserved", timeout_s=to, env={"GRAPH": g}, signature=f"{g}:{fn}"))
     run_conditions(chk, conds)
-    import os
+    if not os.environ.get("VERIF_ONLY") or os.environ.get("VERIF_ONLY", "").startswith("raiser"):
+        chk.guarded("raiser", "assignment whose auto-update raises (Engine C)", raising_assignment, chk)
     if not os.environ.get("VERIF_ONLY") or os.environ.get("VERIF_ONLY", "").startswith("set_seed"):
         obs = chk.guarded("set_seed:trace", "tracing Model.set_seed", set_seed_obligations, chk)
         if obs:
